@@ -2,7 +2,6 @@
    invisible or a local move (global |= local simulation), and preserves the
    well-formedness invariant.  Unbounded: any number of tasks, any schedule. *)
 From Coq Require Import ZArith List Bool Lia Permutation.
-Set Default Timeout 60.
 From RP Require Import Common.Eqb Exec.Model Exec.Oracle Exec.Local Exec.Proj.
 Import ListNotations.
 Local Open Scope Z_scope.
